@@ -26,13 +26,18 @@ REPS_QUICK = ["<a>", "<A N>", "</a>", "<b/>", "<a x/>", "k v", "k", "k v", "K $$
               # character, on whatever line it stands)
               "k $$$$", "\ufeffq v",
               # a directive word ends at any white space, not just at a blank
-              "%define\tx y"]
+              "%define\tx y",
+              # an environment variable that is defined and empty: '%include' of nothing is still an '%include'
+              "%include $(ZCV_EMPTY)", "k a$(ZCV_EMPTY)b"]
 REPS_MORE = ["k # v", "k %v", "<a/ n/ >", "%import p$$$$", "%import p$$", "é É", "<é É>", "</é>", "k  v   w",
              "\ufeff<a>", "\ufeff# c", "%import \ufeffp", "%include\tf", "%import\tp", "%define\u3000x y"]
 
 
+ENV = {"ZCV_EMPTY": ""}      # the environment of every recorded round trip (MC_C17_V!VNoDefs says the same)
+
+
 def round_trip(text):
-    got, top = c03.observe_text(text)
+    got, top = c03.observe_text(text, ENV)
     rec = {"out": c03.encode_outcome(got), "_got": got, "_text": text}
     empty = c03.encode_outcome({"r": "err", "kind": "none"})
     if got["r"] != "ok":
@@ -44,7 +49,7 @@ def round_trip(text):
         rec.update({"s1": [], "out2": dict(empty, kind="str-raised:" + type(e).__name__), "s2same": False,
                     "_s1": None})
         return rec
-    got2, top2 = c03.observe_text(s1)
+    got2, top2 = c03.observe_text(s1, ENV)
     s2same = False
     if got2["r"] == "ok":
         try:
@@ -79,7 +84,7 @@ def run(chk):
                 "loaded, printed, reloaded and printed again on the real code and the recorded round trip validated by "
                 "TLC; non-trivial = the first load is accepted and the tree is not empty" % (maxlines, len(reps)))
     vcfg = flow.cfg_text(constants={"N": "@N@"}, invariants=["Verdict17"],
-                         overrides={"ExtLower": "VExtLower", "ExtSpace": "VExtSpace"})
+                         overrides={"ExtLower": "VExtLower", "ExtSpace": "VExtSpace", "NoDefs": "VNoDefs"})
 
     def describe(i, rec, clause, verdict):
         again = round_trip(rec["_text"])
@@ -134,6 +139,10 @@ def run(chk):
             # the configuration texts that ship with the repository (as they are: refused where they use %define /
             # %include; and with those lines taken out)
             recs += [make_record(lines, 0) for lines in c03.repo_texts()]
+            # a physical line of just under 8192 characters two sections deep: however str() indents it, it is one line
+            # (thorough tier: validating 8 000-character lines costs TLC two minutes; C03 reads such lines in its quick tier)
+            if not quick:
+                recs.append(make_record(["<a>", "<b>", "path " + "v" * 8185, "</b>", "</a>"], 0))
         racc += sum(1 for r in recs if r["_got"]["r"] == "ok")
         flow.run_v(chk, "MC_C17_V", vcfg, recs, describe, header=c03.header_for(recs), nontrivial=nontrivial)
         done += k
